@@ -41,7 +41,12 @@ PROFILES = {
     # callback tables: several callables of every kind on one task, re-added, removed, then every way of ending
     "cbtable": {"create": 6, "addcb": 50, "rmcb": 20, "wait": 0, "cancel": 4, "cancelself": 4, "sleep": 10, "unique": 2,
                 "exec": 0, "raise": 4, "call": 0},
+    # (round 4) the callback table of a task changes while that task is already running its done-callbacks: programs
+    # are built by Gen.cbexit_prog, the weights only serve the optional controller root
+    "cbexit":  {"create": 0, "addcb": 1, "rmcb": 1, "wait": 1, "cancel": 1, "cancelself": 0, "sleep": 1, "unique": 0,
+                "exec": 0, "raise": 0, "call": 0},
 }
+MUTATOR_KINDS = ("def", "closure", "method")      # callables that can call task.* themselves (pyscript code)
 
 
 class Gen:
@@ -131,6 +136,107 @@ class Gen:
             p.insert(0, ["unique", "n1", False])
             p.append(["sleep", 2])
         return p
+
+    def cbexit_prog(self, me, idx, kind):
+        """Round 4 family: 3-5 distinct callables are registered on one task (the caller itself or a child it has just
+        created); one or two of them - pyscript code: def / closure / bound method of a pyscript class instance -
+        change the callback table of the task that is ending (task.current_task()) WHILE they run as its
+        done-callbacks: a one-shot callback that takes itself off, one that removes another callback (one that has
+        already run / has not run yet), one that chains a new callback, one that registers a registered function again
+        with other arguments, one that removes a function that is not registered.  Every position of the changing
+        callback in the table (first / middle / last), every way of ending (return, raise, task.cancel(), cancelled
+        by its creator, killed by a rival claimant), a waiter that looks at the outcome (creator or a second root),
+        and - variant "ext" - another task that changes the table while a done-callback of the ending task is
+        suspended.  Returns (program, events of further roots)."""
+        r = self.r
+        p, more = [], []
+        tgt, who = me, "self"
+        mode = ["child", "self", "ext", "child", "self"][idx % 5]
+        if kind == "svc" and self.masked and mode != "child":
+            mode = "child"                # mask of svc-addcb-keyerror: no done-callback on a service-started task
+        if mode == "child":
+            ch = self.free.pop(0)
+            body = [["sleep", r.choice([1, 2])]]
+            if not self.masked and r.random() < 0.2:
+                body.append(["raise"])
+            p.append(["create", ch, body])
+            tgt, who = ch, ch
+        kinds = sorted(tl.FN_KINDS)
+        if self.masked:
+            kinds.remove("method")        # mask of method-cb-per-lookup
+        pool = [f for f in tl.ALL_FNS if tl.KIND_OF[f] in kinds]
+        cand = [f for f in pool if tl.KIND_OF[f] in MUTATOR_KINDS]
+        muts = r.sample(cand, r.choice([1, 1, 2]))
+        fns = muts + r.sample([f for f in pool if f not in muts], r.randint(2, 5 - len(muts)))
+        r.shuffle(fns)
+        if mode == "ext" or idx % 3 == 0: # the changing callback at every position: first / last / anywhere
+            fns.remove(muts[0])
+            fns.insert(0, muts[0])
+        elif idx % 3 == 1:
+            fns.remove(muts[0])
+            fns.append(muts[0])
+        spare = [f for f in pool if f not in fns]
+        ext = []
+        for n, f in enumerate(fns):
+            a = self.cb_args(tgt, f)
+            if mode == "ext":
+                # the first callback sleeps 2 s; a second root changes the table of the ending task meanwhile
+                a[2], a[3] = ("sleep", 2) if n == 0 else ("ret", 0)
+                self.sleepy.add(tgt)
+            elif f in muts:
+                ms = []
+                for _ in range(r.choice([1, 1, 2])):
+                    k = r.choice(["rmself", "rmself", "rmother", "rmother", "addnew", "addnew", "readd", "rmnone"])
+                    if k == "rmself":
+                        ms.append(["rm", "self", f, 0, "ret", 0])
+                    elif k == "rmother":
+                        ms.append(["rm", "self", r.choice([g for g in fns if g != f]), 0, "ret", 0])
+                    elif k == "addnew" and spare:
+                        ms.append(["add", "self", spare.pop(r.randrange(len(spare))), r.choice([1, 2]), "ret", 0])
+                    elif k == "readd":
+                        ms.append(["add", "self", r.choice(fns), r.choice([1, 2]), "ret", 0])
+                    elif spare:
+                        ms.append(["rm", "self", r.choice(spare), 0, "ret", 0])
+                a[2] = ["mut", ms, a[2]]
+            p.append(["addcb", who] + a)
+        if mode == "ext":
+            for _ in range(r.choice([1, 2])):
+                k = r.choice(["rmother", "rmother", "addnew", "addnew", "readd", "rmrun"])
+                if k == "rmother":
+                    ext.append(["rmcb", me, r.choice(fns[1:])])
+                elif k == "rmrun":
+                    ext.append(["rmcb", me, fns[0]])
+                elif k == "addnew" and spare:
+                    ext.append(["addcb", me, spare.pop(r.randrange(len(spare))), r.choice([1, 2]), "ret", 0])
+                else:
+                    ext.append(["addcb", me, r.choice(fns[1:]), r.choice([1, 2]), "ret", 0])
+            more.append({"at": 1, "do": "spawn", "tag": "t5", "how": r.choice(["ev", "svc"]), "ctx": "c1",
+                         "prog": ext + [["wait", me]]})
+            return p, more
+        if mode == "child":
+            k = r.random()
+            if k < 0.5:
+                p.append(["wait", tgt])
+            elif k < 0.8 and not (self.masked and tgt in self.sleepy):
+                self.targets.add(tgt)
+                p += [["sleep", 1 if p[0][2][0][1] == 2 else 0], ["cancel", tgt], ["wait", tgt]]
+            return p, more
+        k = r.random()
+        if k < 0.35:
+            p.append(["sleep", 2])
+            more.append({"at": 1, "do": "spawn", "tag": "t5", "how": "ev", "ctx": "c1", "prog": [["wait", me]]})
+        elif k < 0.5 and not self.masked:
+            p.append(["raise"])
+        elif k < 0.65 and not (self.masked and me in self.sleepy):
+            self.targets.add(me)
+            p.append(["cancel", "self"])
+        elif k < 0.8 and not (self.masked and me in self.sleepy):
+            self.claims |= {me, "t5"}
+            p.insert(0, ["unique", "n1", False])
+            p.append(["sleep", 2])
+            more.append({"at": 1, "do": "spawn", "tag": "t5", "how": "ev", "ctx": "c1",
+                         "prog": [["unique", "n1", False], ["wait", me]]})
+        return p, more
 
     def prog(self, me, depth, kind):
         r = self.r
@@ -240,9 +346,15 @@ def gen_scenario(r, sid, masked, profile="graph", idx=0):
     legacy = r.random() < 0.5
     how = r.choice(["ev", "ev", "st", "svc"])
     kd = "svc" if how == "svc" else "trig"
-    events = [{"at": 0, "do": "spawn", "tag": "t1", "how": how, "ctx": "c1",
-               "prog": g.cbtable_prog("t1", idx, kd) if profile == "cbtable" else g.prog("t1", 0, kd)}]
-    if profile == "cbtable" and "t1" in g.claims and not (masked and g.sleepy):
+    if profile == "cbexit":
+        prog, more = g.cbexit_prog("t1", idx, kd)
+        events = [{"at": 0, "do": "spawn", "tag": "t1", "how": how, "ctx": "c1", "prog": prog}] + more
+    else:
+        events = [{"at": 0, "do": "spawn", "tag": "t1", "how": how, "ctx": "c1",
+                   "prog": g.cbtable_prog("t1", idx, kd) if profile == "cbtable" else g.prog("t1", 0, kd)}]
+    if profile == "cbexit":
+        pass
+    elif profile == "cbtable" and "t1" in g.claims and not (masked and g.sleepy):
         # the owner of the name is killed by a rival claimant while it sleeps
         g.claims.add("t5")
         events.append({"at": 1, "do": "spawn", "tag": "t5", "how": "ev", "ctx": "c1", "prog": [["unique", "n1", False]]})
@@ -328,6 +440,9 @@ def variants(scn, case, r, cap):
                         for op in p:
                             if op[0] == "addcb" and op[2] == idx and op[4] == "sleep":
                                 op[4] = "sleepraise"
+                                hit = True
+                            elif op[0] == "addcb" and op[2] == idx and isinstance(op[4], list) and op[4][2] == "sleep":
+                                op[4][2] = "sleepraise"
                                 hit = True
                     if not hit or scn["masked"]:
                         continue
@@ -419,8 +534,17 @@ def model_runs(ctx):
     runs.append(stmt("c14_exit", {"Task": "{t1}", "Fn": "{g1, g2}", "MaxArg": "2", "MaxOps": "3", "MaxEnv": "1",
                                   "Ops": '{"sleep", "raise", "addcb", "rmcb"}'}, {2, 3, 6, 7, 8, 9, 10, 11, 12, 13}))
     # names + callbacks + cancellation between two tasks (owner suspended in its exit protocol, head-of-line blocking)
+    # (round 4: add_done_callback may aim at a task that is suspended inside a done-callback - witness 20)
     runs.append(stmt("c14_unique_cb_cancel", {"Task": "{t1, t2}", "Fn": "{g1}", "MaxOps": "2", "MaxEnv": "1",
-                                              "Ops": '{"unique", "sleep", "cancel", "addcb"}'}, {5, 7, 8, 9, 11, 12, 13}))
+                                              "Ops": '{"unique", "sleep", "cancel", "addcb"}'},
+                     ({5, 7, 8, 9, 11, 12, 13, 14, 15, 16, 17, 18, 19}, 20)))
+    # round 4: done-callbacks that change the callback table of the ending task while they run (add / remove / add
+    # again, any function incl. themselves), hass-side cancellation at every park; visits: an untouched callback
+    # runs after the change (17), a callback added during the exit protocol never ran (18), a callback removed
+    # itself / ran though it had been removed meanwhile (19)
+    runs.append(stmt("c14_cbtab", {"Task": "{t1}", "Fn": "{g1, g2, g3}", "MaxArg": "2", "MaxOps": "4", "MaxEnv": "1",
+                                   "Ops": '{"sleep", "addcb", "cbtab"}'},
+                     ({2, 3, 6, 7, 8, 9, 10, 11, 12, 13, 14, 15, 16, 20}, 20)))
     # task graphs: create / cancel / wait
     runs.append(stmt("c14_graph", {"Task": "{t1, t2, t3}", "MaxOps": "2", "Ops": '{"create", "cancel", "wait"}'},
                      {3, 4, 5, 6, 8, 10, 11, 12, 13}))
@@ -440,11 +564,16 @@ def model_runs(ctx):
         runs.append(stmt("c14_call_nested", {"Task": "{t1, t2, t3}", "MaxOps": "2", "MaxEnv": "1",
                                              "Ops": '{"call", "sleep", "cancel"}'}, None, workers=5))
 
+        # round 4: two tasks, done-callbacks that change callback tables (their own task's or the other's) x cancel
+        # (measured single-worker: 644 985 distinct / 1 567 919 generated, 439 s; witnesses 17-20 visited)
+        runs.append(stmt("c14_cbtab_two_tasks", {"Task": "{t1, t2}", "Fn": "{g1, g2}", "MaxOps": "3", "MaxEnv": "1",
+                                                 "Ops": '{"sleep", "addcb", "cancel", "cbtab"}'}, None, workers=5))
+
         def sim():
             c = dict(one)
             c.update({"Task": "{t1, t2, t3, t4}", "Fn": "{g1, g2}", "MaxArg": "2", "MaxOps": "4", "MaxEnv": "2",
                       "Kinds": '{"trig", "svc"}',
-                      "Ops": '{"unique", "sleep", "raise", "create", "cancel", "addcb", "rmcb", "wait", "exec", "call"}'})
+                      "Ops": '{"unique", "sleep", "raise", "create", "cancel", "addcb", "rmcb", "wait", "exec", "call", "cbtab"}'})
             cfg = tl.mc_cfg(ctx, "c14_sim", c, inv, symmetry=False)
             res = tlc.run("Tasks", cfg, ctx.scratch, workers=tl.tlc_workers(4), timeout=3000,
                           extra=["-simulate", "num=3000", "-depth", "70", "-seed", str(ctx.seed + 1)])
@@ -469,7 +598,7 @@ def main(ctx):
     # the two families added in round 3 (service calls, callback tables of every kind of callable): fewer
     # crash-point re-runs per base scenario
     extra = {"call": ctx.pick(2, 30), "cbtable": ctx.pick(2, 30)}
-    caps = {"graph": cap, "call": ctx.pick(3, 40), "cbtable": ctx.pick(1, 10)}
+    caps = {"graph": cap, "call": ctx.pick(3, 40), "cbtable": ctx.pick(1, 10), "cbexit": ctx.pick(1, 6)}
     njobs = 12
     scns = []
     for j in range(njobs):
@@ -481,6 +610,10 @@ def main(ctx):
                 masked = k % 2 == 1
                 scns.append(gen_scenario(r, "%s/%s%d.%d" % ("m" if masked else "u", prof, j, k), masked, prof,
                                          idx=len(scns)))
+    # round 4 family, from a random stream of its own (the scenarios of the earlier families stay what they were)
+    r4 = random.Random(ctx.seed + 4)
+    nexit = ctx.pick(2, 15) * njobs
+    scns += [gen_scenario(r4, "%s/cbexit%d" % ("m" if k % 2 else "u", k), k % 2 == 1, "cbexit", idx=k) for k in range(nexit)]
     jobs = [{"scns": scns[j::njobs], "seed": ctx.seed * 100 + j, "cap": cap, "caps": caps} for j in range(njobs)]
     jobs[0]["scns"] = witnesses() + jobs[0]["scns"]
     # development on a shared machine: VERIF_NPROC=4 caps the check at about four processes
@@ -519,7 +652,10 @@ def main(ctx):
                        "lambda / bound method of a Python object / bound method of a pyscript class instance, args, behaviour "
                        "return|raise|sleep|sleep-then-raise) / remove_done_callback / wait / cancel(self|child) / sleep / unique / "
                        "raise / executor / call of a pyscript service (blocking or not, same or other context, both API forms; "
-                       "the called run has a program of its own)), three operation mixes (graph, call, cbtable), both "
+                       "the called run has a program of its own)), three operation mixes (graph, call, cbtable) + the family "
+                       "cbexit (done-callbacks that add / remove / re-add callbacks of the ending task while they run, at "
+                       "every position of the table, or another task doing so while a done-callback is suspended; every way "
+                       "of ending; a waiter looks at the outcome), both "
                        "subsystems; each base run is followed by one re-run per recorded suspension point (sleep, task.wait, "
                        "blocked in a service call, sleep inside a done-callback) x injection "
                        "(hass-side reaper_cancel, task.cancel from a controller task, raise after the resumption), capped per "
@@ -577,13 +713,51 @@ def main(ctx):
     if any(not v["invoked"] for v in kinds.values()) or not exact or not calls["returned"] or not calls["non_blocking"] \
             or not calls["caller_owned_name_or_callback"]:
         raise MachineryFailure("vacuous coverage (callable kinds / exact removals / service calls): %s %s %s" % (kinds, exact, calls))
+    # round 4 family, counted from the recordings (coverage only, no verdict)
+    xt = {"callback_removes_itself": 0, "callback_removes_another": 0, "callback_adds_new": 0,
+          "callback_adds_registered_again": 0, "other_task_changes_table_during_exit": 0,
+          "outcome_seen_by_a_waiter": 0, "changing_callback_not_last": 0}
+    for c in gen:
+        table, began, touched, waits, ncb = {}, set(), set(), {}, {}
+        for ln in c["trace"]:
+            if ln["k"] == "cb":
+                began.add(ln["t"])
+                ncb[ln["t"]] = ncb.get(ln["t"], 0) + 1
+                xt["changing_callback_not_last"] += ln["t"] in touched and ncb.get("x" + ln["t"]) is None
+                if ln["t"] in touched:
+                    ncb["x" + ln["t"]] = 1
+            elif ln["k"] == "cbx":
+                touched.add(ln["v"])
+                if ln["x"] == "rm":
+                    xt["callback_removes_itself" if ln["g"] == ln["f"] else "callback_removes_another"] += 1
+                else:
+                    xt["callback_adds_registered_again" if ln["g"] in table.get(ln["v"], ()) else "callback_adds_new"] += 1
+                    table.setdefault(ln["v"], set()).add(ln["g"])
+            elif ln["k"] == "op" and ln["op"] == "addcb":
+                table.setdefault(ln["v"], set()).add(ln["f"])
+            if ln["k"] == "op" and ln["op"] in ("addcb", "rmcb") and ln["v"] in began:
+                xt["other_task_changes_table_during_exit"] += 1
+                touched.add(ln["v"])
+            if ln["k"] == "op" and ln["op"] == "wait":
+                waits[ln["t"]] = ln["v"]
+            if ln["k"] == "res" and ln["w"] != "-" and waits.get(ln["t"]) in touched:
+                xt["outcome_seen_by_a_waiter"] += 1
+    ctx.cov["exit_table_changes"] = xt
+    st5 = ctx.cov.get("selftest_exit_table", {})
+    if any(not v for v in xt.values()) or not st5.get("exit_table_change_drops_later_callbacks") \
+            or not st5.get("exit_table_change_replaces_outcome"):
+        if not nmask:
+            raise MachineryFailure("vacuous coverage (callback table changed during the exit protocol): %s %s" % (xt, st5))
     ctx.cov["bounds"] = {"tasks": 6, "callback_functions": 12, "names": 1, "contexts": 2, "ops_per_task": 7}
     for c in (base[:1] + inj[:1]):
         ctx.sample({"id": c["id"], "legacy": c["scn"]["legacy"], "events": c["scn"]["events"], "point": c["scn"].get("point"),
                     "trace_lines": len(c["trace"]), "verdict": why.get(c["id"], "accepted")})
     ctx.assumptions += [
         "add/remove_done_callback aim at the caller itself or at a child in the step that created it, within one global "
-        "context: changing the callback table of a task that is already running its done-callbacks is not specified",
+        "context; when the callback table of a task changes while that task already runs its done-callbacks (by one of "
+        "these callbacks or by another task), the statement does not say whether the function whose entry was changed "
+        "still runs / with which of its argument versions (the model allows every choice, at most once); all other "
+        "callbacks must run exactly once, the call must not raise and the task keeps its outcome",
         "whether the remaining done-callbacks run after a cancellation hit a suspended done-callback is not specified "
         "(the model allows both); the cleanup is required in every case",
         "cancel/add_done_callback/wait of a finished task are skipped by the worker (TLC checks the target is done)",
